@@ -276,3 +276,7 @@ mod test {
         assert_eq!(au64.get(), 123);
     }
 }
+
+// Verification hook: unit-level harnesses are compiled as a child module (only with `--cfg prometheus_verif`).
+#[cfg(all(prometheus_verif, any(kani, prometheus_verif_replay)))]
+include!(concat!(env!("PROMETHEUS_VERIF_INCRATE"), "/atomic64.rs"));
